@@ -145,6 +145,7 @@ class InvariantLoop:
             I.exec_block(st.orelse)
             return
         I.ctx.assume_checked(SBool(i.t < it.n.t))
+        I.ctx.ghost.setdefault("loop_indices", []).append(i.t)  # (a return out of the body happens at this index)
         I.assign(st.target, it.elem(i))
         try:
             I.exec_block(st.body)
